@@ -14,7 +14,7 @@ echo "tests(with patch): $tests | demo patched exit=$d1 | demo clean exit=$d0"
 cd /verif
 res=""
 for p in "$@"; do
-  out=$(VERIF_REPO=$D /venv/bin/python -m vf.run $p --tier ${TIER:-quick} 2>&1); rc=$?
+  out=$(VERIF_REPO=$D VERIF_EVIDENCE_DIR=$D/ev /venv/bin/python -m vf.run $p --tier ${TIER:-quick} 2>&1); rc=$?
   echo "$out" | grep -v KNOWN-FINDING | tail -${TAIL:-4}
   res="$res $p:exit$rc"
 done
